@@ -130,7 +130,11 @@ def probe_names():
     import twosigma.memento.storage_filesystem as sf
     esc = []
     for cp in list(range(0, 256)) + [0x3b1, 0x20ac, 0x1f600]:
-        esc.append((cp, [ord(c) for c in sf._FilesystemDataSource._escape_key(None, chr(cp))]))
+        try:
+            r = [ord(c) for c in sf._FilesystemDataSource._escape_key(None, chr(cp))]
+        except Exception:
+            r = []          # the code refuses this character as a key: no file name (the theorems over the table then fail)
+        esc.append((cp, r))
     unq = []
     for xx in range(0, 128):
         for fmt in ("%%%02X", "%%%02x"):
